@@ -338,6 +338,28 @@ def var_cases(tier):
             yield (f"vars:rot{rot}", text, n, decl_lines)
 
 
+def odd_var_cases(tier):
+    """One declaration of the list is of an unusual shape -- a bare sign or storage specifier (valid C: `unsigned n;`),
+    a static or const local, an array, a struct variable, a declaration with an initialiser -- at the first, a middle
+    or the last place: it is a variable of the function all the same and counts towards the limit."""
+    odd = [("unsigned", "uu"), ("signed", "ss"), ("register", "rr"), ("static", "st"), ("static int", "cnt"), ("const int", "kk"),
+           ("char", "buf[4]"), ("struct s_point", "pt"), ("int", "xx = 0"), ("long long", "*pp"), ("unsigned long", "tab[2][2]")]
+    for n in range(3, 10):
+        for oi, (ot, onm) in enumerate(odd):
+            for place in ("first", "mid", "last"):
+                vs = [VAR_POOL[(oi + k) % len(VAR_POOL)] for k in range(n)]
+                pos = 0 if place == "first" else n - 1 if place == "last" else n // 2
+                vs[pos] = (ot, onm)
+                col = max(norm.min_col(t, 1) for t, _ in vs)
+                decls = ""
+                decl_lines = []
+                for k, (t, nm) in enumerate(vs):
+                    decls += "\t" + t + norm.tabs_to(5 + len(t), col) + nm + ";\n"
+                    decl_lines.append(14 + k + 1)
+                text = HDR_C + "int\tft_subject(int n)\n{\n" + decls + "\n\treturn (n);\n}\n"
+                yield (f"vars:odd:{ot.replace(' ', '_')}:{place}", text, n, decl_lines)
+
+
 # ---------------------------------------------------------------- worker / oracle
 
 def judge(task):
@@ -398,7 +420,7 @@ def judge(task):
         if hit != want:
             out.append(("missing" if len(hit) < len(want) else "spurious" if len(hit) > len(want) else "wrong-line",
                         f"{n} variables: TOO_MANY_VARS_FUNC on lines {hit}, expected {want}"))
-        if n <= 5 and errs:
+        if n <= 5 and errs and ":odd:" not in label:
             out.append(("other-error-at-limit:" + errs[0][1], f"{errs[:3]}"))
     return out
 
@@ -414,7 +436,7 @@ def all_tasks(tier):
         yield ("funcs", label, ".c", text, f, sig_lines)
     for label, text, n, ln in param_cases(tier):
         yield ("params", label, ".c", text, n, ln)
-    for label, text, n, dl in var_cases(tier):
+    for label, text, n, dl in list(var_cases(tier)) + list(odd_var_cases(tier)):
         yield ("vars", label, ".c", text, n, dl)
 
 
